@@ -31,6 +31,8 @@ import IvpModel.Proofs.ReflectDopri5
 import IvpModel.Proofs.ReflectDop853
 import IvpModel.Proofs.ScaleDopri5
 import IvpModel.Proofs.ScaleDop853
+import IvpModel.Proofs.ScaleRk23
+import IvpModel.Proofs.ScaleRk4
 
 noncomputable section
 variable {K : Type} [Field K] [LinearOrder K] [IsStrictOrderedRing K] [SqrtPow K]
@@ -232,6 +234,24 @@ theorem c13_scale_dop853_whole_run {σ : Type} {n : Nat} (c : K) (hc : 0 < c) (L
     firstStep hmaxArg iord fo hl fuel
   rw [Ctl.sRhs_of_homogeneous c hc.ne' f hf] at h
   exact h
+
+/-- **Whole runs of RK23 under a scaling of state and atol by `c > 0`**, automatic first step included. -/
+theorem c13_scale_rk23_whole_run {σ : Type} {n : Nat} (c : K) (hc : 0 < c) (P : Ctl.R23Params K n) (f : Ctl.Rhs K n)
+    (hf : ∀ j t y, f j t (vsmul c y) = vsmul c (f j t y)) (ob : Ctl.Obs σ K n) (obs0 : σ) (x0 : K) (y0 : Ctl.Vec K n)
+    (firstStep : Option K) (hmaxArg : K) (fuel : Nat) :
+    Ctl.rk23Solve (Ctl.sP23 c P) f (Ctl.sObs c ob) obs0 x0 (vsmul c y0) firstStep hmaxArg fuel
+      = (Ctl.rk23Solve P f ob obs0 x0 y0 firstStep hmaxArg fuel).map (Ctl.sResult c) := by
+  have h := Ctl.rk23Solve_scale c hc P f ob obs0 x0 y0 firstStep hmaxArg fuel
+  rw [Ctl.sRhs_of_homogeneous c hc.ne' f hf] at h
+  exact h
+
+/-- **Whole runs of RK4 under a scaling of the state by `c ≠ 0`.** -/
+theorem c13_scale_rk4_whole_run {σ : Type} {n : Nat} (c : K) (hc : c ≠ 0) (P : Ctl.R4Params K) (f : Ctl.Rhs K n)
+    (hf : ∀ j t y, f j t (vsmul c y) = vsmul c (f j t y)) (ob : Ctl.Obs σ K n) (obs0 : σ) (x0 : K) (y0 : Ctl.Vec K n) (h : K) (fuel : Nat) :
+    Ctl.rk4Solve P f (Ctl.sObs c ob) obs0 x0 (vsmul c y0) h fuel = (Ctl.rk4Solve P f ob obs0 x0 y0 h fuel).map (Ctl.sResult c) := by
+  have h' := Ctl.rk4Solve_scale c hc P f ob obs0 x0 y0 h fuel
+  rw [Ctl.sRhs_of_homogeneous c hc f hf] at h'
+  exact h'
 
 /-- the hypothesis of `c13_scale_dopri5_whole_run` is met by every linear system `y' = A(t) y` -/
 example {n : Nat} (c : K) (A : K → Fin n → Fin n → K) :
